@@ -327,6 +327,9 @@ func (e *executor) verifyEntry(f *Function, pt string, spec *ProgSpec) error {
 				final = e.flush(mem).Base
 				same = smt.And(same, smt.Implies(e.tm.icmp("ult", k, e.pktLen0), smt.Eq(smt.Select(final, k), smt.Select(e.res.pkt0, k))))
 			}
+			if v, ok := e.knownVal(s, acts.S, 0); ok && v {
+				acts = smt.True // decided by the branch conditions on every path to this point
+			}
 			isPass := e.tm.icmp("eq", retT, lit(uint64(spec.Pass), 32))
 			goal := smt.Implies(isPass, smt.Or(acts, e.tm.named("pkt_unmodified", same)))
 			pre = smt.And(isPass, smt.Not(acts))
@@ -345,7 +348,7 @@ func (e *executor) verifyEntry(f *Function, pt string, spec *ProgSpec) error {
 				ls := &State{pc: sn.pc, pktLen: sn.pktLen, facts: sn.facts, known: sn.known, found: sn.found}
 				retT := ret
 				if v, ok := sn.phis[lf.reg]; ok && lf.reg != "" && !v.IsPtr {
-					retT = v.T
+					retT = e.resolve(ls, v).T
 				}
 				goal, vals, err := mkGoal(retT, ls, sn.pkt)
 				if err != nil {
@@ -492,7 +495,7 @@ func (e *executor) retSources(fr *frame) []retLeaf {
 							isPhiThere = true
 						}
 					}
-					if isPhiThere && f.cfg.loopOf[p] == nil {
+					if isPhiThere && f.cfg.loopOf[p] == nil && pureChain[p] {
 						expand(pb, v.Name, depth+1)
 						continue
 					}
